@@ -103,13 +103,30 @@ func fsOp(vfs avfs.VFS, r *lib.Rng, allow map[string]bool, hs *[]avfs.File, syml
 			return
 		}
 		f := lib.Pick(r, *hs)
-		switch r.Intn(8) {
+		switch r.Intn(16) {
 		case 0:
 			_, _ = f.Read(make([]byte, 4))
 		case 1:
 			_, _ = f.Write([]byte("xy"))
 		case 2:
 			_, _ = f.Seek(int64(r.Intn(6)), 0)
+		case 8:
+			_, _ = f.Seek(int64(r.Intn(3))-2, r.Intn(3)) // every whence, negative offsets too
+		case 9:
+			_ = f.Truncate(int64(r.Intn(12)))
+		case 10:
+			_, _ = f.WriteString("grow")
+		case 11:
+			_ = f.Sync()
+		case 12:
+			_, _ = f.Readdirnames(-1)
+		case 13:
+			_ = f.Chown(r.Intn(2)*1000, r.Intn(2)*1000)
+		case 14:
+			_ = f.Name()
+			_ = f.Fd()
+		case 15:
+			_ = f.Chdir()
 		case 3:
 			_, _ = f.ReadAt(make([]byte, 2), 1)
 		case 4:
